@@ -89,6 +89,23 @@ def main(argv=None):
                     proof_problems.append('no Print Assumptions for: %s' % missing)
             else:
                 proof_problems.append('proof obligations of %s no longer check: %s' % (vf, out[-600:]))
+        # ---- thorough tier: the independent checker re-checks the compiled closure of the property file and lists every axiom in it
+        coqchk = None
+        if tier == 'thorough' and not a.replay and not proof_problems:
+            import subprocess
+            mods = ['Morph.' + vf[len('theories/'):-2].replace('/', '.') for vf in mod.PROPS_FILES]
+            t1 = time.time()
+            try:
+                cp = subprocess.run(['coqchk', '-o', '-silent', '-Q', 'theories', 'Morph'] + mods, cwd=common.COQ, capture_output=True, text=True, timeout=1800)
+                txt = cp.stdout + cp.stderr
+                axioms = txt.split('* Axioms:')[1].split('* Constants')[0].strip() if '* Axioms:' in txt else '?'
+                coqchk = {'modules': mods, 'rc': cp.returncode, 'axioms': axioms, 'wall_s': round(time.time() - t1, 1)}
+                if cp.returncode != 0:
+                    proof_problems.append('coqchk rejects the compiled development: ' + txt[-600:])
+                elif axioms != '<none>':
+                    proof_problems.append('coqchk lists axioms in the closure of %s: %s' % (mods, axioms[:400]))
+            except Exception as e:
+                proof_problems.append('coqchk did not finish: %r' % e)
         soft = {}
         for vf in getattr(mod, 'FINDINGS_FILES', []):
             if info.built(vf):
@@ -147,6 +164,7 @@ def main(argv=None):
             'trusted_base': TRUSTED_BASE_COMMON + getattr(mod, 'TRUSTED', []),
             'assumptions_per_theorem': assumptions,
             'findings_lemmas': soft if 'soft' in dir() else {},
+            'coqchk': (coqchk if 'coqchk' in dir() and coqchk else 'thorough tier only'),
             'evaluations': res.evaluations, 'distinct_nontrivial': len(res.distinct), 'rule': res.rule,
             'samples': res.samples[:8] or ['(none)'], 'input_distribution': res.histogram,
             'model_impl_disagreements': len(res.disagreements),
